@@ -141,6 +141,27 @@ func TestGovcFiniteDomain(t *testing.T) {
 		line(s[:2])
 		line(s[:2] + "x")
 	}
+	// every 3-byte string whose first byte is '1'..'5' (the response-code branch), alone and followed by a blank: complete
+	// for that branch; only disagreements with [1-5][0-9][0-9] are printed
+	n3 := 0
+	for a := byte('1'); a <= '5'; a++ {
+		for b := 0; b < 256; b++ {
+			for c := 0; c < 256; c++ {
+				w := string([]byte{a, byte(b), byte(c)})
+				want := b >= '0' && b <= '9' && c >= '0' && c <= '9'
+				for _, suf := range []string{"", " x"} {
+					n3++
+					if got := IsStartWithDirective(bytes.NewBytes(w + suf)); got != want {
+						fmt.Printf("LS %x %v\n", w+suf, got)
+					}
+				}
+				if _, err := NewDirectiveType(w); (err == nil) != want {
+					fmt.Printf("RC3 %x %v\n", w, err == nil)
+				}
+			}
+		}
+	}
+	fmt.Printf("N3 %d\n", n3)
 	for _, a := range []byte("aZ1 5\t/#@(") {
 		line(string([]byte{a}))
 		for _, b := range []byte("aZ1 5\t/#@(") {
@@ -228,6 +249,13 @@ func TestGovcFiniteDomain(t *testing.T) {
 			if (f[2] == "true") != want && len(lsBad) < 12 {
 				lsBad = append(lsBad, fmt.Sprintf("IsStartWithDirective(%q) = %s, the statement says %v (a line of a Description text starts a directive iff it begins with a keyword or a response code)", w, f[2], want))
 			}
+		case "N3":
+			var n int
+			fmt.Sscanf(f[1], "%d", &n)
+			lsN += n
+		case "RC3":
+			wb, _ := hex.DecodeString(f[1])
+			rcBad = append(rcBad, fmt.Sprintf("NewDirectiveType(%q) accepted=%s, a response code is [1-5][0-9][0-9]", string(wb), f[2]))
 		case "RC":
 			rcN++
 			s := f[1]
